@@ -5,6 +5,10 @@ import (
 	"strings"
 	"time"
 
+	"github.com/PowerDNS/lmdb-go/lmdb"
+
+	"verif/lmdbx"
+
 	"verif/bucket"
 	"verif/inst"
 	"verif/props/loopp"
@@ -206,4 +210,132 @@ func runQuietFleet(q quietFleet, env *runner.Env, res *runner.Result) {
 	}
 	res.NonTrivial = changed
 	res.Sample = map[string]any{"fleet": q, "uploads": b.SuccessfulCount("Store"), "events": len(evs)}
+}
+
+// RunConvergingFleet (C01, real loops): N real Sync loops with concurrent application writers on few keys; after the
+// writers stop and the fleet is idle all instances must hold identical content, and for every key the value of the
+// version with the highest timestamp written anywhere (native mode: the harness chose the timestamps).
+func RunConvergingFleet(q quietFleet, env *runner.Env, res *runner.Result) {
+	r := rng.New(q.Seed)
+	b := bucket.New()
+	s := sched.New()
+	defer s.Close()
+	var insts []*inst.Inst
+	var loops []*sched.Loop
+	for i := 0; i < q.N; i++ {
+		conf := lsx.FastConfig(fmt.Sprintf("i%d", i))
+		x, err := inst.New(env.Dir(fmt.Sprintf("cf%d", i)), b, db, fmt.Sprintf("i%d", i), inst.Opt{Native: q.Native, Padding: q.Padding, Conf: &conf})
+		if err != nil {
+			res.Verdict, res.Msg = runner.Inconclusive, err.Error()
+			return
+		}
+		defer x.Close()
+		insts = append(insts, x)
+	}
+	for _, x := range insts {
+		l := sched.Start(x, s)
+		loops = append(loops, l)
+		defer l.Stop(5 * time.Second)
+	}
+	// writers: few keys, conflicting; native timestamps strictly increasing per (instance,key) from a small shared range
+	type wv struct {
+		ts  uint64
+		del bool
+		val string
+	}
+	best := map[string]wv{} // native: highest timestamp per key (ties: any)
+	all := map[string][]wv{}
+	base := uint64(time.Now().UnixNano())
+	last := map[string]uint64{}
+	for w := 0; w < q.Writes; w++ {
+		i := r.Intn(len(insts))
+		x := insts[i]
+		key := fmt.Sprintf("k%d", r.Intn(4))
+		del := r.Chance(1, 5)
+		val := fmt.Sprintf("w%d-i%d", w, i)
+		ts := base + uint64(r.Intn(8))*1000
+		id := fmt.Sprintf("%d/%s", i, key)
+		if ts <= last[id] {
+			ts = last[id] + 1000
+		}
+		last[id] = ts
+		s.Note(x.Name, "APP BEGIN "+key)
+		_, err := lmdbx.Update(x.Env, func(txn *lmdb.Txn) error {
+			if q.Native {
+				return inst.NativePut(txn, "d", []byte(key), ts, del, []byte(val))
+			}
+			if del {
+				return lmdbx.Del(txn, "d", []byte(key))
+			}
+			return lmdbx.Put(txn, "d", 0, []byte(key), []byte(val))
+		})
+		s.Note(x.Name, "APP COMMIT "+key)
+		if err != nil {
+			res.Verdict, res.Msg = runner.Inconclusive, err.Error()
+			return
+		}
+		v := wv{ts, del, val}
+		all[key] = append(all[key], v)
+		if bv, ok := best[key]; !ok || ts > bv.ts {
+			best[key] = v
+		}
+		time.Sleep(time.Duration(r.Intn(1500)) * time.Microsecond)
+	}
+	const wd = 30 * time.Second
+	for round := 0; round < 4; round++ {
+		for _, l := range loops {
+			if ok, why := l.WaitQuiescent(nil, 5, wd); !ok {
+				if err, c, fin := l.Result(); fin {
+					res.Violate("sync-ended", fmt.Sprintf("Sync of %s ended (err=%v crashed=%v)", l.I.Name, err, c), map[string]any{"fleet": q, "events_tail": s.Tail(60)})
+					return
+				}
+				res.Verdict, res.Msg = runner.Inconclusive, "fleet did not go idle: "+why
+				return
+			}
+		}
+	}
+	res.Count("converging_fleets", 1)
+	wit := map[string]any{"fleet": q, "events_tail": s.Tail(60)}
+	states := make([]inst.State, len(insts))
+	for i, x := range insts {
+		states[i], _ = x.Logical()
+	}
+	for i := 1; i < len(states); i++ {
+		if df := inst.DiffState(states[0], states[i]); df != "" {
+			res.Violate("replicas-diverge", fmt.Sprintf("fleet idle, i0 and i%d differ: %s", i, df), wit)
+		}
+	}
+	if q.Native {
+		conflicts := 0
+		for key, bv := range best {
+			got, ok := states[0]["d"][key]
+			if len(all[key]) > 1 {
+				conflicts++
+			}
+			if !ok || got.TS != bv.ts {
+				res.Violate("not-the-lww-winner", fmt.Sprintf("d[%s] converged to %v, the highest timestamp written anywhere is %d", key, got, bv.ts), wit)
+				continue
+			}
+			okVal := false
+			for _, v := range all[key] {
+				if v.ts == got.TS && v.del == got.Del && (v.del || v.val == got.Val) {
+					okVal = true
+				}
+			}
+			if !okVal {
+				res.Violate("not-the-lww-winner", fmt.Sprintf("d[%s] converged to %v which nobody wrote with that timestamp", key, got), wit)
+			}
+		}
+		res.Count("keys_with_conflicting_versions", int64(conflicts))
+	} else {
+		a0, _ := insts[0].App()
+		for i := 1; i < len(insts); i++ {
+			ai, _ := insts[i].App()
+			if fmt.Sprint(a0) != fmt.Sprint(ai) {
+				res.Violate("application-dbis-diverge", fmt.Sprintf("application DBIs of i0 and i%d differ in an idle fleet", i), wit)
+			}
+		}
+	}
+	res.NonTrivial = true
+	res.Sample = map[string]any{"fleet": q, "uploads": b.SuccessfulCount("Store"), "events": s.Len()}
 }
